@@ -22,8 +22,8 @@ SPEC = {
         "the unsynchronised Executors map write in setPlanner vs read in runOnService is a Go data race outside an interleaving model of atomic steps: the refresh part runs in a child process and a runtime 'concurrent map' abort there is counted, not claimed",
     ],
     "manifest": {
-        "text": "Random partitions of dynamically built schemas over 2-4 in-process services, random ServiceSelector choices and queries with repeated aliases, nested / named fragments, unions, directives, arguments, nulls and empty lists at hop points and multi-hop plans are run through the gateway and through one non-federated server over the same data: the JSON must agree, every sub-request must pass the receiving service's own PrepareQuery and use only fields and arguments that service declares, also while planners are being swapped. Coq theorems (Props/C06.v) over an executable model of normalisation, planning and stitching; the model is evaluated against the gateway's normalised query, plan and answer on every run.",
-        "note": "Trusted: Coq kernel + vm_compute; the hand-written model (tied to the code only by the correspondence check); the Go harness incl. its reference evaluator. Two defects repaired (fix: commits): mergeSameAlias lost sub-selections of repeated aliases; extractKeys failed on a null object at a service hop.",
+        "text": "Random partitions of dynamically built schemas over 2-4 in-process services, random ServiceSelector choices and queries with repeated aliases, nested / named fragments, unions, @skip/@include on fields (incl. __typename and repeated aliases), fragments and spreads, arguments, nulls and empty lists at hop points and multi-hop plans are run through the gateway and through one non-federated server over the same data: the JSON must agree (also with the gateway's answer to the query with its directives applied textually), every sub-request must pass the receiving service's own PrepareQuery and use only fields and arguments that service declares, also while planners are being swapped. Coq theorems (Props/C06.v) over an executable model of normalisation, planning and stitching; the model is evaluated against the gateway's normalised query, plan and answer on every run.",
+        "note": "Trusted: Coq kernel + vm_compute; the hand-written model (tied to the code only by the correspondence check); the Go harness incl. its reference evaluator. Defects repaired (fix: commits): mergeSameAlias lost sub-selections of repeated aliases; extractKeys failed on a null object at a service hop; __typename on the root object was not answered; a selection excluded by @skip/@include was merged with a kept one of the same alias (and mergeSameAlias' sort was not stable).",
         "technique": "Coq proof over executable model + differential correspondence check (vm_compute) + property oracle on implementation outputs",
     },
 }
